@@ -78,6 +78,9 @@ def explore(ctx, which):
         if len(samples) < 3:
             samples.append({"flags": fk, "bases": [(b["prob"], b["replacements"]) for b in g.base],
                             "first": [(i["pt"], i["prob"]) for i in items[:4]], "n": len(items)})
+        # "same directory, later load": for every fifth ruleset (thorough: every third) the life of the directory goes on
+        if k % ctx.scale(5, 3) == 1:
+            vio += history_run(ctx, which, rs, (sb, scs, folder), sc, dist)
     # correspondence: shards of <= 40 rulesets
     shards = []
     per = 25
@@ -108,9 +111,88 @@ def explore(ctx, which):
             "probability ratios agree to 9-16 digits without being equal), each under one of 6 flag sets; in 3 of 5 runs the queue's "
             "existing max_queue_size attribute is set to 2/6/16; run to exhaustion; non-trivial = has two "
             "pre-terminals of equal probability, a repeated type in a structure, or a one-group variable; distinct by "
-            "loaded tables")
+            "loaded tables; for every fifth ruleset (thorough: every third) a HISTORY of 2-4 loads of the SAME directory "
+            "(impl_next.History): same files under other flags, in-place edits that keep the uuid (base structure dropped, "
+            "grammar.txt / a terminal file re-weighted, value added or removed, grammar.txt as the real edit_rules.py leaves it), "
+            "a re-training look, a plain second session; the oracles run after every step against the files as they are then "
+            "(C01 also: base probabilities are lines of grammar.txt, same stream as from a fresh directory, same tables as in a fresh process)")
     return {"evaluations": dist["rulesets"], "distinct_nontrivial": nontrivial, "rule": rule, "samples": samples,
             "corr": corr, "violations": vio, "dist": dist}
+
+
+def history_run(ctx, which, rs, flags, sc, dist, steps=None):
+    """A history on ONE ruleset directory (impl_next.History / HistoryGen): after the first load 1-3 further steps - the same files
+    under other flags, an in-place edit that keeps the uuid (a base structure dropped, grammar.txt or a terminal file re-weighted,
+    a value added or removed, grammar.txt as the real edit_rules.py leaves it) loaded under flags used before, a re-training
+    look (everything replaced, new uuid), or simply a second session.  After EVERY step the directory is loaded by the real
+    PcfgGrammar in this process, run to exhaustion, and the oracles of the property are applied against the files AS THEY ARE
+    NOW; for C01 (the sequence is a function of ruleset and flags) the stream is also compared with the one of the same files
+    written to a fresh directory, and at the last step the loaded tables with those a fresh python process loads.
+    steps: the recorded steps of a replay."""
+    import time
+    vio, t0 = [], time.time()
+    h = impl_next.History(sc)
+    hg = None if steps is not None else impl_next.HistoryGen(ctx.rng, rs, flags)
+    n = len(steps) if steps is not None else ctx.rng.choice([2, 3, 3, 4])
+    done = []
+    dist["histories"] = dist.get("histories", 0) + 1
+    for k in range(n):
+        st = steps[k] if steps is not None else (hg.first() if k == 0 else hg.next(h.current))
+        done.append(st)
+        now = h.write(st)
+        sb, scs, folder = bool(st.get("skip_brute")), bool(st.get("skip_case")), st.get("folder", "Grammar")
+        replay = {"ruleset": now, "skip_brute": sb, "skip_case": scs, "folder": folder, "history": list(done), "step": k}
+        dist["history_steps"] = dist.get("history_steps", 0) + 1
+        dist.setdefault("history_edits", {})
+        dist["history_edits"][st.get("edit", "?")] = dist["history_edits"].get(st.get("edit", "?"), 0) + 1
+        try:
+            g = h.load(st)
+        except Exception:
+            g = None
+        g0 = None
+        if which == "C01":
+            try:
+                g0 = impl_next.load_grammar(now, sc, sb, scs, folder)
+            except Exception:
+                g0 = None
+            if (g is None) != (g0 is None):
+                vio.append({"sig": "C01:nondeterministic:history", "what": "step %d (%s) of a history on one ruleset directory: the load %s, the same "
+                            "files in a fresh directory %s" % (k, st.get("edit"), "fails" if g is None else "works", "fail" if g0 is None else "load"),
+                            "replay": replay})
+                break
+        if g is None:
+            dist["history_load_rejected"] = dist.get("history_load_rejected", 0) + 1
+            continue
+        try:
+            items, problems, capped, q = impl_next.full_stream(g, cap=ctx.scale(600, 3000))
+        except Exception as e:
+            vio.append({"sig": "%s:raised:%s" % (which, type(e).__name__),
+                        "what": "PcfgQueue.next() raised %s: %s at step %d (%s) of a history on one ruleset directory" % (type(e).__name__, e, k, st.get("edit")),
+                        "replay": replay})
+            break
+        if capped:
+            continue
+        v = oracle(which, g, items, problems, replay)
+        for x in v:
+            x["what"] = "step %d (%s) of a history on one ruleset directory: %s" % (k, st.get("edit"), x["what"])
+        vio += v
+        if which == "C01" and not v:
+            items0, _, _, _ = impl_next.full_stream(g0, cap=len(items) + 5, check_heap=False)
+            if [impl_next.key(i) for i in items0] != [impl_next.key(i) for i in items]:
+                d = next((j for j, (a, b) in enumerate(zip(items, items0)) if impl_next.key(a) != impl_next.key(b)), min(len(items), len(items0)))
+                vio.append({"sig": "C01:nondeterministic:history", "what": "step %d (%s) of a history on one ruleset directory: the emitted sequence "
+                            "(%d pre-terminals) is not the one the same files and flags give in a fresh directory (%d); first difference at %d"
+                            % (k, st.get("edit"), len(items), len(items0), d), "replay": dict(replay, index=d)})
+            elif k == n - 1 and (steps is not None or dist["histories"] % 2 == 0):
+                dist["history_child_loads"] = dist.get("history_child_loads", 0) + 1
+                if h.load_child(st) != impl_next.tables_of(g):
+                    vio.append({"sig": "C01:nondeterministic:history", "what": "step %d (%s) of a history on one ruleset directory: the tables loaded "
+                                "in this process differ from those a fresh python process loads from the same directory under the same flags"
+                                % (k, st.get("edit")), "replay": replay})
+        if v:
+            break
+    dist["history_seconds"] = round(dist.get("history_seconds", 0) + time.time() - t0, 2)
+    return vio
 
 
 def oracle(which, g, items, problems, replay):
@@ -155,6 +237,19 @@ def oracle(which, g, items, problems, replay):
                 vio.append({"sig": "C01:product:file", "what": "pre-terminal %d uses group %s[%d] with probability %r, but its value %r stands in "
                             "the ruleset file with probability %r: the guesses built from it are emitted at the wrong place of the order"
                             % (bad[0], bad[1], bad[2], bad[5], bad[3], bad[4]), "replay": dict(replay, index=bad[0])})
+        # ... and the base-structure probability is the one of the ruleset FILES: (base_prob, labels) of every emitted pre-terminal is a
+        # line of <folder>/grammar.txt (rescaled by 1/(1-P(M)) under skip_brute) as it is NOW
+        if rs_:
+            fb = impl_next.file_bases(rs_, flags_[0], flags_[2])
+            if fb is not None:
+                have = set((float(p_).hex(), tuple(n_)) for p_, n_ in fb)
+                for i, it in enumerate(items):
+                    if (it["base_prob"].hex(), tuple(t for t, _ in it["pt"])) not in have:
+                        vio.append({"sig": "C01:product:base-file", "what": "pre-terminal %d is built on base structure %s with probability %r, which is "
+                                    "no line of the ruleset's %s/grammar.txt (it has %r)" % (i, "".join(t for t, _ in it["pt"] if t[0] != "C"),
+                                    it["base_prob"], flags_[2], [("".join(x for x in n_ if x[0] != "C"), p_) for p_, n_ in fb][:6]),
+                                    "replay": dict(replay, index=i)})
+                        break
         for kind, i in problems:
             vio.append({"sig": "C01:" + kind, "what": "%s after pop %d" % (kind, i), "replay": dict(replay, index=i)})
             break
@@ -193,6 +288,8 @@ def replay(ctx, data):
     if "ruleset" not in inp:
         return []
     sc = common.scratch()
+    if inp.get("history"):
+        return history_run(ctx, ctx.prop, None, None, sc, {}, steps=inp["history"])
     g = impl_next.load_grammar(inp["ruleset"], sc, inp.get("skip_brute", False), inp.get("skip_case", False),
                                inp.get("folder", "Grammar"))
     try:
